@@ -147,7 +147,6 @@ structure State where
   tok : Nat → Bool             -- park token per executor thread
   fwakes : Nat → Nat           -- wakes of manual future f since its last poll
   fpend : Nat → Bool           -- manual future f exists and is unresolved
-  refs : Nat                   -- Arc strong count
   freed : Bool                 -- OneShotShared::drop has run
   nextH : Nat                  -- sender handles created so far
   gone : Ag → Bool             -- handle consumed / dropped
@@ -159,6 +158,8 @@ structure State where
   writer : Option Nat          -- sender between its successful CAS EMPTY→WRITING and the swap / backtrack
   taker : Option Ag            -- handle between its successful CAS SENT→TAKEN and its `guard.take()`
   closer : Option Nat          -- sender that took sender_count to 0 and has not yet tried EMPTY→CLOSED
+  armed : Bool                 -- the registered waker belongs to a poll that has answered Pending
+  reopened : Bool              -- some clone was made from a sender handle that had already been closed
   sval : Nat → Option Nat
   sres : Nat → Option Res
   mover : Option Nat
@@ -173,11 +174,15 @@ def updN {α} (f : Nat → α) (i : Nat) (x : α) : Nat → α := fun j => if j 
 def init (progS : Nat → List Op) (progR : List Op) : State :=
   { st := .empty, slot := none, locked := false, waker := none, rdrop := false, scount := 1,
     closed := fun _ => false, tok := fun _ => false, fwakes := fun _ => 0, fpend := fun _ => false,
-    refs := 2, freed := false, nextH := 1, gone := fun _ => false, loc := fun _ => {},
+    freed := false, nextH := 1, gone := fun _ => false, loc := fun _ => {},
     prog := fun a => match a with | .S 0 => progS 0 | .S _ => [] | .R => progR,
-    progS := progS, dec := fun _ => false, writer := none, taker := none, closer := none,
+    progS := progS, dec := fun _ => false, writer := none, taker := none, closer := none, armed := false, reopened := false,
     sval := fun _ => none, sres := fun _ => none, mover := none, moved := [], received := [], dropped := [],
     results := fun _ => [] }
+
+/-- every handle created so far has released its `Arc` reference (`Arc` is modelled by its contract:
+`OneShotShared::drop` runs when the last owner lets go) -/
+def allGone (gone : Ag → Bool) (n : Nat) : Bool := gone .R && (List.range n).all (fun i => gone (.S i))
 
 def setLoc (s : State) (a : Ag) (l : Loc) : State := { s with loc := upd s.loc a l }
 
@@ -206,16 +211,17 @@ def afterClose (l : Loc) : Loc :=
 def afterWake (l : Loc) : Loc :=
   if l.k = .send ∧ l.ph = false then { l with m := .sUnlock } else afterClose l
 
-/-- result of `OneShotShared::try_recv` at its three call sites (`r` ∈ okV v | empty | disc) -/
-def afterTry (l : Loc) (r : Res) : Loc :=
+/-- result of `OneShotShared::try_recv` at its three call sites (`r` ∈ okV v | empty | disc). The second
+try of a poll answering Empty is `Poll::Pending`: the registration made by this poll is now `armed`. -/
+def afterTry (s : State) (a : Ag) (l : Loc) (r : Res) : State :=
   match l.stage, r with
-  | 0, _ => { l with m := .ret r }
-  | 1, .empty => { l with m := .pLdState }
-  | _, .empty =>                                   -- second try of a poll: Poll::Pending
+  | 0, _ => setLoc s a { l with m := .ret r }
+  | 1, .empty => setLoc s a { l with m := .pLdState }
+  | _, .empty =>
     (match l.k with
-     | .recv _ => { l with m := .park }
-     | _ => { l with m := .ret .pending })
-  | _, _ => { l with m := .ret r }
+     | .recv _ => { s with armed := true, loc := upd s.loc a { l with m := .park } }
+     | _ => { s with armed := true, loc := upd s.loc a { l with m := .ret .pending } })
+  | _, _ => setLoc s a { l with m := .ret r }
 
 /-! ### steps -/
 
@@ -225,7 +231,10 @@ def stepCall (s : State) (a : Ag) : Option State :=
     if s.gone a then none else
     let s1 := { s with prog := upd s.prog a rest }
     match op, a with
-    | .send v, .S i => some { s1 with sval := updN s.sval i (some v), loc := upd s.loc a { k := .send, m := .sLdOwn, v := v } }
+    | .send v, .S i =>
+      -- `send(self)` consumes the handle: one send per handle
+      if s.sval i ≠ none then none else
+      some { s1 with sval := updN s.sval i (some v), loc := upd s.loc a { k := .send, m := .sLdOwn, v := v } }
     | .clone, .S _ => some { s1 with loc := upd s.loc a { k := .clone, m := .clFadd } }
     | .isSent, .S _ => some { s1 with loc := upd s.loc a { k := .isSent, m := .pbLdState } }
     | .isClosed, .S _ => some { s1 with loc := upd s.loc a { k := .isClosed, m := .pbLdRdrop } }
@@ -258,11 +267,10 @@ def stepRet (s : State) (a : Ag) : Option State :=
     | _, _ => some s1
   | _ => none
 
-/-- every other action: determined by the handle's micro position -/
-def stepAct (s : State) (a : Ag) : Option State :=
+/-- `Sender::send` + `OneShotShared::send` -/
+def stepSend (s : State) (a : Ag) : Option State :=
   let l := s.loc a
   match l.m with
-  -- ---------------------------------------------------------------- Sender::send
   | .sLdOwn =>                                    -- self.closed.load(Relaxed)
     if s.closed a then some (sendDone s a l (.closedV l.v)) else some (setLoc s a { l with m := .sLdRdrop })
   | .sLdRdrop =>                                  -- receiver_dropped.load(Acquire)
@@ -285,21 +293,30 @@ def stepAct (s : State) (a : Ag) : Option State :=
                   loc := upd s.loc a { l with res := .ok, m := .wake } }
   | .sUnlock =>                                   -- guard dropped at the end of the Ok arm
     some { s with locked := false, loc := upd s.loc a { l with ph := true, m := .dSwapOwn } }
-  -- ---------------------------------------------------------------- AtomicWaker::wake
+  | _ => none
+
+/-- `AtomicWaker::wake` (+ the executor waker's unpark) -/
+def stepWk (s : State) (a : Ag) : Option State :=
+  let l := s.loc a
+  match l.m with
   | .wake =>
     match s.waker with
     | none => some (setLoc s a (afterWake l))
-    | some (.task t) => some { s with waker := none, loc := upd s.loc a { l with m := .wkUnpark t } }
-    | some (.fut f) => some { s with waker := none, fwakes := updN s.fwakes f (s.fwakes f + 1), loc := upd s.loc a (afterWake l) }
+    | some (.task t) => some { s with waker := none, armed := false, loc := upd s.loc a { l with m := .wkUnpark t } }
+    | some (.fut f) => some { s with waker := none, armed := false, fwakes := updN s.fwakes f (s.fwakes f + 1), loc := upd s.loc a (afterWake l) }
   | .wkUnpark t => some { s with tok := updN s.tok t true, loc := upd s.loc a (afterWake l) }
-  -- ---------------------------------------------------------------- close / Drop
+  | _ => none
+
+/-- `close` / `Drop` of a handle, `decrement_senders` -/
+def stepCl (s : State) (a : Ag) : Option State :=
+  let l := s.loc a
+  match l.m with
   | .cCasOwn =>                                   -- closed.compare_exchange(false, true, AcqRel, Relaxed)
     if s.closed a then some (setLoc s a { l with m := .ret .closeErr })
     else some { s with closed := upd s.closed a true, loc := upd s.loc a { l with m := if a.isS then .dcFsub else .ciStRdrop } }
   | .dSwapOwn =>                                  -- closed.swap(true, AcqRel)
     if s.closed a then some (setLoc s a { l with m := .arcRel })
     else some { s with closed := upd s.closed a true, loc := upd s.loc a { l with m := if a.isS then .dcFsub else .ciStRdrop } }
-  -- ---------------------------------------------------------------- decrement_senders
   | .dcFsub =>                                    -- sender_count.fetch_sub(1, AcqRel)
     if s.scount = 1 then
       some { s with scount := 0, dec := updN s.dec a.idx true, closer := some a.idx, loc := upd s.loc a { l with m := .dcCasEC } }
@@ -318,13 +335,17 @@ def stepAct (s : State) (a : Ag) : Option State :=
     if s.st = .taken then some (setLoc s a (afterClose l)) else some (setLoc s a { l with m := .dcLdState4 })
   | .dcLdState4 =>                                -- … state.load(Relaxed) != SENT
     if s.st = .sent then some (setLoc s a (afterClose l)) else some (setLoc s a { l with m := .wake })
-  -- ---------------------------------------------------------------- claim-and-drop
+  | _ => none
+
+/-- claim-and-drop of an orphaned value, `Receiver::close_internal`, `Arc` release, `OneShotShared::drop` -/
+def stepX (s : State) (a : Ag) : Option State :=
+  let l := s.loc a
+  match l.m with
   | .xLock =>                                     -- value_slot.lock(); guard.take() → assume_init_drop
     if s.locked then none
     else some { s with locked := true, slot := none, taker := none, dropped := s.dropped ++ s.slot.toList,
                        loc := upd s.loc a { l with m := .xUnlock } }
   | .xUnlock => some { s with locked := false, loc := upd s.loc a (afterClose l) }
-  -- ---------------------------------------------------------------- Receiver::close_internal
   | .ciStRdrop => some { s with rdrop := true, loc := upd s.loc a { l with m := .ciCasEC } }     -- store(true, Release)
   | .ciCasEC =>                                   -- CAS EMPTY → CLOSED (AcqRel / Relaxed)
     if s.st = .empty then some { s with st := .closed, loc := upd s.loc a { l with m := .ciCasST } }
@@ -332,19 +353,23 @@ def stepAct (s : State) (a : Ag) : Option State :=
   | .ciCasST =>                                   -- CAS SENT → TAKEN (AcqRel / Relaxed)
     if s.st = .sent then some { s with st := .taken, taker := some a, loc := upd s.loc a { l with m := .xLock } }
     else some (setLoc s a (afterClose l))
-  -- ---------------------------------------------------------------- Arc release / OneShotShared::drop
-  | .arcRel =>
-    if s.refs = 1 then some { s with refs := 0, gone := upd s.gone a true, loc := upd s.loc a { l with m := .fLdState } }
-    else some { s with refs := s.refs - 1, gone := upd s.gone a true,
-                       loc := upd s.loc a { l with m := .ret (if l.k = .send then l.res else .ok) } }
+  | .arcRel =>                                    -- Arc::drop: the last owner runs OneShotShared::drop
+    let g := upd s.gone a true
+    if allGone g s.nextH then some { s with gone := g, loc := upd s.loc a { l with m := .fLdState } }
+    else some { s with gone := g, loc := upd s.loc a { l with m := .ret (if l.k = .send then l.res else .ok) } }
   | .fLdState =>                                  -- state.load(Relaxed) == SENT → get_mut().take() → drop
     if s.st = .sent then
       some { s with freed := true, slot := none, dropped := s.dropped ++ s.slot.toList,
                     loc := upd s.loc a { l with m := .ret (if l.k = .send then l.res else .ok) } }
     else some { s with freed := true, loc := upd s.loc a { l with m := .ret (if l.k = .send then l.res else .ok) } }
-  -- ---------------------------------------------------------------- clone / probes
+  | _ => none
+
+/-- `clone` and the probes -/
+def stepPb (s : State) (a : Ag) : Option State :=
+  let l := s.loc a
+  match l.m with
   | .clFadd =>                                    -- sender_count.fetch_add(1, Relaxed); Arc::clone; new handle
-    some { s with scount := s.scount + 1, refs := s.refs + 1, nextH := s.nextH + 1,
+    some { s with scount := s.scount + 1, nextH := s.nextH + 1, reopened := s.reopened || s.dec a.idx,
                   prog := upd s.prog (.S s.nextH) (s.progS s.nextH),
                   loc := upd s.loc a { l with m := .ret .ok } }
   | .pbLdRdrop => some (setLoc s a { l with m := .ret (.b s.rdrop) })
@@ -355,16 +380,21 @@ def stepAct (s : State) (a : Ag) : Option State :=
   | .icLdCount =>
     if s.scount = 0 then some (setLoc s a { l with m := .ret (.b (l.cur = .empty ∨ l.cur = .writing)) })
     else some (setLoc s a { l with m := .ret (.b false) })
-  -- ---------------------------------------------------------------- try_recv / poll
+  | _ => none
+
+/-- `Receiver::try_recv` / `OneShotShared::try_recv` (also the two tries inside a poll) -/
+def stepTry (s : State) (a : Ag) : Option State :=
+  let l := s.loc a
+  match l.m with
   | .rLdOwn =>                                    -- closed.load(Relaxed)
     if s.closed a then some (setLoc s a { l with m := .ret .disc }) else some (setLoc s a { l with m := .tLdState })
   | .tLdState =>                                  -- state.load(Acquire)
     match s.st with
     | .sent => some (setLoc s a { l with m := .tCasST })
-    | .taken => some (setLoc s a (afterTry l .empty))
-    | .closed => some (setLoc s a (afterTry l .disc))
+    | .taken => some (afterTry s a l .empty)
+    | .closed => some (afterTry s a l .disc)
     | .empty => some (setLoc s a { l with m := .tLdCount })
-    | .writing => some (setLoc s a (afterTry l .empty))
+    | .writing => some (afterTry s a l .empty)
   | .tCasST =>                                    -- CAS SENT → TAKEN (AcqRel / Acquire)
     if s.st = .sent then some { s with st := .taken, taker := some a, loc := upd s.loc a { l with m := .tLock } }
     else some (setLoc s a { l with m := .tLdState2 })
@@ -375,19 +405,31 @@ def stepAct (s : State) (a : Ag) : Option State :=
                                 loc := upd s.loc a { l with v := v, res := .okV v, m := .tUnlock } }
       | none => some { s with locked := true, taker := none, loc := upd s.loc a { l with m := .tStClosed } }
   | .tStClosed => some { s with st := .closed, loc := upd s.loc a { l with res := .disc, m := .tUnlock } }   -- store(CLOSED, Relaxed)
-  | .tUnlock => some { s with locked := false, loc := upd s.loc a (afterTry l l.res) }
+  | .tUnlock => some (afterTry { s with locked := false } a l l.res)
+  | _ => none
+
+/-- `OneShotShared::try_recv`: the arms after the failed CAS / after state EMPTY -/
+def stepTry2 (s : State) (a : Ag) : Option State :=
+  let l := s.loc a
+  match l.m with
   | .tLdState2 =>                                 -- state.load(Acquire) after the failed CAS
     match s.st with
-    | .taken => some (setLoc s a (afterTry l .empty))
-    | .closed => some (setLoc s a (afterTry l .disc))
+    | .taken => some (afterTry s a l .empty)
+    | .closed => some (afterTry s a l .disc)
     | _ => some (setLoc s a { l with m := .tLdCount2 })
   | .tLdCount2 =>                                 -- sender_count.load(Relaxed) == 0
-    if s.scount = 0 then some (setLoc s a (afterTry l .disc)) else some (setLoc s a (afterTry l .empty))
+    if s.scount = 0 then some (afterTry s a l .disc) else some (afterTry s a l .empty)
   | .tLdCount =>                                  -- EMPTY: sender_count.load(Acquire) == 0
-    if s.scount = 0 then some (setLoc s a { l with m := .tCasEC }) else some (setLoc s a (afterTry l .empty))
+    if s.scount = 0 then some (setLoc s a { l with m := .tCasEC }) else some (afterTry s a l .empty)
   | .tCasEC =>                                    -- CAS EMPTY → CLOSED (Relaxed / Relaxed), result ignored
-    if s.st = .empty then some { s with st := .closed, loc := upd s.loc a (afterTry l .disc) }
-    else some (setLoc s a (afterTry l .disc))
+    if s.st = .empty then some (afterTry { s with st := .closed } a l .disc)
+    else some (afterTry s a l .disc)
+  | _ => none
+
+/-- `OneShotShared::poll_recv` around its two tries; `park` of the executor -/
+def stepPoll (s : State) (a : Ag) : Option State :=
+  let l := s.loc a
+  match l.m with
   | .pLdState =>                                  -- poll_recv: state.load(Acquire)
     match s.st with
     | .taken | .closed => some (setLoc s a { l with cur := s.st, m := .pLdCountA })
@@ -402,15 +444,22 @@ def stepAct (s : State) (a : Ag) : Option State :=
     else some (setLoc s a { l with m := .ret .disc })
   | .pReg =>                                      -- receiver_waker.register(cx.waker())
     match l.k with
-    | .recv t => some { s with waker := some (.task t), loc := upd s.loc a { l with stage := 2, m := .tLdState } }
-    | .poll f => some { s with waker := some (.fut f), loc := upd s.loc a { l with stage := 2, m := .tLdState } }
+    | .recv t => some { s with waker := some (.task t), armed := false, loc := upd s.loc a { l with stage := 2, m := .tLdState } }
+    | .poll f => some { s with waker := some (.fut f), armed := false, loc := upd s.loc a { l with stage := 2, m := .tLdState } }
     | _ => none
   | .park =>                                      -- thread::park() returns: token consumed; poll again
     match l.k with
     | .recv t => if s.tok t then some { s with tok := updN s.tok t false, loc := upd s.loc a { l with stage := 1, m := .rLdOwn } } else none
     | _ => none
-  | .idle => none
-  | .ret _ => none
+  | _ => none
+
+def orE {α} : Option α → Option α → Option α
+  | some x, _ => some x
+  | none, y => y
+
+/-- every other action: determined by the handle's micro position -/
+def stepAct (s : State) (a : Ag) : Option State :=
+  orE (stepSend s a) (orE (stepWk s a) (orE (stepCl s a) (orE (stepX s a) (orE (stepPb s a) (orE (stepTry s a) (orE (stepTry2 s a) (stepPoll s a)))))))
 
 /-- `thread::park()` returns without a token (std permits it; the harness scheduler never does it) -/
 def stepSpurious (s : State) (a : Ag) : Option State :=
